@@ -59,9 +59,14 @@ def run_one(patch, props, tier):
     try:
         shutil.copytree("/repo/dreye", os.path.join(d, "dreye"))
         if patch != "CLEAN":
-            r = subprocess.run(["patch", "-p1", "-s", "-i", patch], cwd=d, capture_output=True, text=True)
+            r = subprocess.run(["patch", "-p1", "-i", patch], cwd=d, capture_output=True, text=True)
             if r.returncode:
                 return patch, {"*": "NOAPPLY " + r.stdout[:100]}
+            import re as _re
+            # a hunk that needed fuzz AND landed far from where it was written may have found look-alike lines of ANOTHER function
+            far = [l for l in r.stdout.splitlines() if "fuzz" in l and any(int(n) >= 30 for n in _re.findall(r"offset -?(\d+) line", l))]
+            if far:
+                return patch, {"*": "NOAPPLY (misplaced) " + far[0][:80]}
         out = {}
         tf = touched(patch) if patch != "CLEAN" and SMART else None
         for p in props:
